@@ -371,6 +371,11 @@ where
         let file =
             OpenOptions::new().write(true).open(&self.file_path).await?;
         let mut guard = file.lock_write().await.map_err(|e| e.error)?;
+
+        // Truncate so that a shorter vault does not leave
+        // stale bytes from the previous content
+        guard.inner_mut().set_len(0).await?;
+
         guard.write_all(&buffer).await?;
         guard.flush().await?;
 
